@@ -258,6 +258,25 @@ def isin(t: Term, members: Any) -> Term:
     return ("in", t, ("set", ms))
 
 
+def max2(a: Term, b: Term) -> Term:
+    """max(a, b) - commutative, canonical argument order (np.maximum, clip(lower=), builtin max, a if a > b else b)"""
+    if a == b:
+        return a
+    if is_num_const(a) and is_num_const(b):
+        return C(max(a[1], b[1]))
+    x, y = sorted((a, b), key=_key)
+    return ("clip_lo", x, y)
+
+
+def min2(a: Term, b: Term) -> Term:
+    if a == b:
+        return a
+    if is_num_const(a) and is_num_const(b):
+        return C(min(a[1], b[1]))
+    x, y = sorted((a, b), key=_key)
+    return ("clip_hi", x, y)
+
+
 def ite(c: Term, a: Term, b: Term) -> Term:
     if c == TRUE:
         return a
@@ -265,6 +284,17 @@ def ite(c: Term, a: Term, b: Term) -> Term:
         return b
     if a == b:
         return a
+    # a if a > b else b  ==  max(a, b)   (and the three symmetric forms)
+    if isinstance(c, tuple) and c and c[0] == "cmp" and c[1] in ("<", "<=", ">", ">=") and not maybe_nan(c):
+        try:
+            d = sub(a, b)
+            if c[2] == d or c[2] == neg(d):
+                gt = c[1] in (">", ">=")
+                if c[2] == neg(d):
+                    gt = not gt
+                return max2(a, b) if gt else min2(a, b)
+        except Exception:
+            pass
     return ("ite", c, a, b)
 
 
